@@ -316,6 +316,7 @@ func (env *rcEnv) respondMulti(req *verifsim.Request, p multiPlan) {
 	resp := &pb.MultiResponse{}
 	var cb []byte
 	okCalls, okCells := []string{}, []int{}
+	excs := []map[string]any{}
 	nreg := len(mr.GetRegionAction())
 	rars := make([]*pb.RegionActionResult, nreg)
 	// NB: region action results are positional (i-th result for i-th region action);
@@ -326,6 +327,15 @@ func (env *rcEnv) respondMulti(req *verifsim.Request, p multiPlan) {
 		if cls, ok := p.regionExc[ri]; ok {
 			rar.Exception = &pb.NameBytesPair{Name: proto.String(cls), Value: []byte("region exception " + cls)}
 			rars[ri] = rar
+			for _, a := range ra.Action {
+				row := ""
+				if a.Get != nil {
+					row = string(a.Get.GetRow())
+				} else {
+					row = string(a.Mutation.GetRow())
+				}
+				excs = append(excs, map[string]any{"call": row, "class": cls, "wal": false})
+			}
 			continue
 		}
 		order := make([]int, len(ra.Action))
@@ -352,6 +362,7 @@ func (env *rcEnv) respondMulti(req *verifsim.Request, p multiPlan) {
 			roe := &pb.ResultOrException{Index: proto.Uint32(a.GetIndex())}
 			if cls, ok := p.actionExc[row]; ok {
 				roe.Exception = &pb.NameBytesPair{Name: proto.String(cls), Value: []byte("action exception " + cls)}
+				excs = append(excs, map[string]any{"call": row, "class": cls, "wal": false})
 			} else {
 				n := 1
 				if p.ncells != nil {
@@ -365,12 +376,16 @@ func (env *rcEnv) respondMulti(req *verifsim.Request, p multiPlan) {
 		rars[ri] = rar
 	}
 	resp.RegionActionResult = rars
-	env.tr.Emit("srvresp", "id", int(req.CallID), "kind", "multi", "calls", okCalls, "ncells", okCells)
+	env.tr.Emit("srvresp", "id", int(req.CallID), "kind", "multi", "calls", okCalls, "ncells", okCells, "excs", excs)
 	env.sc.Send(verifsim.Response{CallID: req.CallID, Msg: resp, CellBlock: cb})
 }
 
 func (env *rcEnv) respondExc(req *verifsim.Request, class string) {
-	env.tr.Emit("srvresp", "id", int(req.CallID), "kind", "exc:"+class, "calls", []string{}, "ncells", []int{})
+	excs := []map[string]any{}
+	for _, tg := range rcTags(req) {
+		excs = append(excs, map[string]any{"call": tg, "class": class, "wal": false})
+	}
+	env.tr.Emit("srvresp", "id", int(req.CallID), "kind", "exc:"+class, "calls", []string{}, "ncells", []int{}, "excs", excs)
 	env.sc.SendException(req.CallID, class, "stack of "+class)
 }
 
@@ -381,6 +396,19 @@ func (env *rcEnv) pending() []string {
 	defer env.mu.Unlock()
 	for _, c := range env.calls {
 		if c.count() == 0 {
+			out = append(out, c.tag)
+		}
+	}
+	return out
+}
+
+// pendingLive lists the calls without a result whose context is still live.
+func (env *rcEnv) pendingLive() []string {
+	out := []string{}
+	env.mu.Lock()
+	defer env.mu.Unlock()
+	for _, c := range env.calls {
+		if c.count() == 0 && c.ctx.Err() == nil {
 			out = append(out, c.tag)
 		}
 	}
